@@ -2124,6 +2124,12 @@ func mangleNumber(t string) (string, bool) {
 	original := t
 
 	if dot := strings.IndexByte(t, '.'); dot != -1 {
+		// Leave the exponent alone (e.g. "1.50e10" must not become "1.50e1")
+		exponent := ""
+		if e := strings.IndexAny(t, "eE"); e != -1 {
+			t, exponent = t[:e], t[e:]
+		}
+
 		// Remove trailing zeros
 		for len(t) > 0 && t[len(t)-1] == '0' {
 			t = t[:len(t)-1]
@@ -2143,6 +2149,8 @@ func mangleNumber(t string) (string, bool) {
 				t = t[0:1] + t[2:]
 			}
 		}
+
+		t += exponent
 	}
 
 	return t, t != original
